@@ -83,3 +83,8 @@ def run(eng, ctx):
 
     SH.identity_bits(eng, ctx, "C15.D1")
     TR.dispatch(eng, ctx, "C10.D4")
+    # "the fields, repeat counts and masks it announces": a derived repeat count that is not the population count of the mask in THIS payload
+    # (taken from a cache, from another layer, from a wrong formula) lets a truncated payload through
+    SH.derived_counts(eng, ctx, "C03.D9", labels=False)
+    DEC.harmonic_counts(eng, ctx, "C03.D9b", m)
+    SH.decoder_reads_no_mutable_state(eng, ctx, "C13.D1")
